@@ -795,25 +795,6 @@ func (a *nilAn) nilAryHarmless(fn *ssa.Function, ci ssa.CallInstruction, recv ss
 	if ok, why := scratch(recv); ok {
 		return true, why
 	}
-	if phi, ok := recv.(*ssa.Phi); ok {
-		all := true
-		var whys []string
-		for i, e := range phi.Edges {
-			if ok, why := scratch(e); ok {
-				whys = append(whys, why)
-				continue
-			}
-			pred := phi.Block().Preds[i]
-			if a.whichFactAtEdge(e, pred, phi.Block(), func(f pathFact) bool { return f.Kind == fNeInt && f.Val == a.eRaw }) {
-				whys = append(whys, roleOf(e)+" reaches the call only in a parsed state (which != eRaw on that edge): the array parse of a parsed object's text fails and an eAry node is not re-parsed")
-				continue
-			}
-			all = false
-		}
-		if all {
-			return true, strings.Join(whys, "; ")
-		}
-	}
 	// a parameter of a helper that does not store it, every call site of which hands in a scratch
 	// node — itself possibly the parameter of such a helper
 	var viaParam func(v ssa.Value, depth int) (bool, string)
@@ -842,6 +823,8 @@ func (a *nilAn) nilAryHarmless(fn *ssa.Function, ci ssa.CallInstruction, recv ss
 					sites++
 					if ok, why := viaParam(cj.Common().Args[idx], depth+1); ok {
 						whys = append(whys, fname(h)+": "+why)
+					} else if ok, why := a.becomesTheDocument(h, cj); ok {
+						whys = append(whys, fname(h)+": "+why)
 					} else {
 						allOK = false
 					}
@@ -864,6 +847,31 @@ func (a *nilAn) nilAryHarmless(fn *ssa.Function, ci ssa.CallInstruction, recv ss
 	if _, isP := recv.(*ssa.Parameter); isP && fn.Signature.Recv() == nil {
 		if ok, why := viaParam(recv, 0); ok {
 			return true, why
+		}
+	}
+	if phi, ok := recv.(*ssa.Phi); ok {
+		all := true
+		var whys []string
+		for i, e := range phi.Edges {
+			if ok, why := scratch(e); ok {
+				whys = append(whys, why)
+				continue
+			}
+			pred := phi.Block().Preds[i]
+			if a.whichFactAtEdge(e, pred, phi.Block(), func(f pathFact) bool { return f.Kind == fNeInt && f.Val == a.eRaw }) {
+				whys = append(whys, roleOf(e)+" reaches the call only in a parsed state (which != eRaw on that edge): the array parse of a parsed object's text fails and an eAry node is not re-parsed")
+				continue
+			}
+			if _, isP := e.(*ssa.Parameter); isP && fn.Signature.Recv() == nil {
+				if ok, why := viaParam(e, 0); ok {
+					whys = append(whys, why)
+					continue
+				}
+			}
+			all = false
+		}
+		if all {
+			return true, strings.Join(whys, "; ")
 		}
 	}
 	// behind isArray(*recv.raw)
@@ -1304,4 +1312,57 @@ func (b *Body) firstByteIs(fn *ssa.Function, text ssa.Value, at *ssa.BasicBlock,
 		}
 	}
 	return ""
+}
+
+// becomesTheDocument: the container that call hands back is installed as the
+// root on every path on which the call succeeded, and a failure ends the
+// caller with an error. Whatever node the call advanced then either is the
+// new root (not a nil array) or, when the root is the nil array that spells
+// null, belongs to no document at all: the old tree is gone with its slot.
+func (a *nilAn) becomesTheDocument(h *ssa.Function, cj ssa.CallInstruction) (bool, string) {
+	b := a.b
+	v := cj.Value()
+	if v == nil {
+		return false, ""
+	}
+	tup, ok := v.Type().(*types.Tuple)
+	if !ok || tup.Len() != 2 || !isNamed(tup.At(0).Type(), "container") || !isErrorType(tup.At(1).Type()) {
+		return false, ""
+	}
+	var st *ssa.Store
+	for _, ex := range extractOf(v, 0) {
+		for _, r := range *ex.Referrers() {
+			s, ok := r.(*ssa.Store)
+			if !ok || s.Val != ssa.Value(ex) {
+				continue
+			}
+			if pt, ok := s.Addr.Type().Underlying().(*types.Pointer); ok && isNamed(pt.Elem(), "container") {
+				st = s
+			}
+		}
+	}
+	if st == nil {
+		return false, ""
+	}
+	if ok, _ := b.successDominates(cj, st); !ok {
+		return false, ""
+	}
+	call, ok := cj.(*ssa.Call)
+	if !ok {
+		return false, ""
+	}
+	n := 0
+	for _, t := range errTestsOf(h, call) {
+		if t.Chain {
+			return false, ""
+		}
+		n++
+		if !mustPass(t.Blk.Succs[1-t.NonNilSucc], st.Block()) {
+			return false, ""
+		}
+	}
+	if n == 0 {
+		return false, ""
+	}
+	return true, "the container handed back replaces the whole document at " + b.posOf(st) + " on every path on which the call succeeded, and a failure ends the operation: a node left as a nil array is then the null root itself, inside no document"
 }
